@@ -1,4 +1,5 @@
-/* units: execution::detail::default_agent::{default_agent, suspend, resume, abort}  (execution_base/src/this_thread.cpp)   (M)
+/* units: execution::detail::default_agent::{default_agent, suspend, resume, abort} (M), {sleep_until} (M), {sleep_for, yield, yield_k,
+ * spin_k} (T + frame)   (execution_base/src/this_thread.cpp)
  * Every statement of the functions under contract is lifted; see agent_da.h for the protocol, ghost state and stubs. */
 #include "agent_da.h"
 
@@ -84,6 +85,7 @@ __CPROVER_assigns(DA_FRAME)
 //@FUNC
 void sleep_until(struct default_agent *self, long sleep_time, char const *desc)
 __CPROVER_requires(DA_PRE(self) && g_role == ROLE_SUSPENDER && g_pub == g_k - 1 && g_wake == g_k - 1 && !self->aborted_ && OS_GHOST0)
+#ifndef KF_TIMED_SLEEP_IS_NOT_A_SUSPENSION
 /* the sleep is published (running_ = false) and announced on resume_cv_, so that a resume() / abort() issued for it completes */
 __CPROVER_ensures(g_pub == g_k && g_steps == 1)
 __CPROVER_ensures(g_step_cs >= 1 && g_ntf_res_cs >= g_step_cs)
@@ -91,6 +93,10 @@ __CPROVER_ensures(g_step_cs >= 1 && g_ntf_res_cs >= g_step_cs)
 __CPROVER_ensures(g_wake == g_k || g_deadline)
 /* woken by abort(): leaves by exception */
 __CPROVER_ensures((g_wake == g_k && g_wake_abort) ? vx_exc != 0 : vx_exc == 0)
+#else
+/* known finding excluded: what the function does guarantee -- it returns only after the deadline and touches nothing of the agent */
+__CPROVER_ensures(g_deadline && g_pub == g_k - 1 && g_wake == g_k - 1 && g_steps == 0 && vx_exc == 0)
+#endif
 __CPROVER_ensures(!self->mtx_.held)
 __CPROVER_assigns(DA_FRAME, OS_FRAME)
 //@LIFT body
@@ -190,8 +196,10 @@ void harness(void)
   g_role = ROLE_SUSPENDER;
   sleep_until(&ag, nondet_long(), "sleep_until");
   if (g_deadline && vx_exc == 0) VX_REACH("deadline_passed");
+#ifndef KF_TIMED_SLEEP_IS_NOT_A_SUSPENSION
   if (g_wake == g_k && vx_exc == 0) VX_REACH("resumed_before_the_deadline");
   if (vx_exc != 0) VX_REACH("aborted_throws");
+#endif
 #endif
 #ifdef U_SLEEP_FOR
   g_role = ROLE_NONE;
